@@ -344,7 +344,7 @@ class CollAlg:
                                   for k in e.keywords)
                 return ("op", short_name, self.term(e.args[0]), extra)
             if isinstance(e.func, ast.Attribute) and dotted(
-                    e.func.value) == "self" and "iterator" in e.func.attr:
+                    e.func.value) == "self" and "iter" in e.func.attr:
                 return ("gen", self.text(e))
             return ("opaque", f"call {ast.unparse(e)[:60]}")
         return ("opaque", ast.unparse(e)[:60])
